@@ -3,7 +3,8 @@
     [comb_bij]).  Proof file. *)
 From Coq Require Import ZArith List Bool Arith Lia.
 From SP Require Import Design.Flat Design.Layout Design.Sem Comb.CombModel Comb.CombSpec Random.Enum Random.Frag
-  Random.RunLemmas Random.Frag0Enum Random.Frag0Decode Random.Frag0Valid.
+  Random.RunLemmas Random.FragPerm Random.KeysCount Random.Frag0Enum Random.Frag0Decode Random.Frag0Valid.
+From SP Require Comb.PrefixProofs.
 Import ListNotations.
 Open Scope nat_scope.
 Set Default Proof Using "All".
@@ -28,6 +29,15 @@ Proof.
   rewrite H in E1. rewrite E1 in E2. inversion E2. reflexivity.
 Qed.
 
+Lemma map_snd_combine' {A B} (xs : list A) (ys : list B) : length xs = length ys -> map snd (combine xs ys) = ys.
+Proof.
+  revert ys. induction xs as [|x t IH]; intros [|y ys] H; cbn in *; try discriminate; [reflexivity|].
+  f_equal. apply IH. lia.
+Qed.
+
+Lemma count_sym_In w x : (0 < count_sym w x)%Z -> In x w.
+Proof. unfold count_sym. intros H. apply (count_occ_In Z.eq_dec). lia. Qed.
+
 Section F0I.
 Variable fb : flat.
 Hypothesis HF : frag2 fb = true.
@@ -40,6 +50,18 @@ Local Notation C := (f0_C fb).
 Local Notation lo := (f0_leftover fb).
 Local Notation prod := (f0_cprod fb).
 Local Notation ubi := (f0_ubi fb).
+
+Lemma srcs_nodup : NoDup (f0_srcs fb).
+Proof.
+  unfold f0_srcs, instances_of. apply NoDup_map_inj_in'.
+  - intros x y Hx Hy E. pose proof (product_length_elem _ _ Hx) as Lx. pose proof (product_length_elem _ _ Hy) as Ly.
+    rewrite map_length in Lx, Ly.
+    rewrite <- (map_snd_combine' (f0_ubs fb) x), <- (map_snd_combine' (f0_ubs fb) y) by lia. rewrite E. reflexivity.
+  - apply product_NoDup. intros l Hl. apply in_map_iff in Hl. destruct Hl as [f [E _]]. subst l. unfold all_levels. apply seq_NoDup.
+Qed.
+
+Lemma valid_nodup ci : NoDup (f0_valid fb ci).
+Proof. unfold f0_valid. apply NoDup_filter. apply seq_NoDup. Qed.
 
 (** one round: equal rows for every factor force equal components *)
 Lemma round_inj tc cp1 cp2 : tc <= C -> comp_ok fb tc cp1 -> comp_ok fb tc cp2 ->
@@ -68,7 +90,49 @@ Proof.
         pose proof (map_seq_inj _ _ tc Hrow t Ht) as E. inversion E as [E']. exact E'. }
     lia. }
   assert (E0 : a0 = b0) by (rewrite <- Hr1, <- Hr2, Hperm; reflexivity).
-  assert (E1 : a1 = b1) by (rewrite Ha1, Hb1; reflexivity).
+  assert (E1 : a1 = b1).
+  { subst b0. destruct (perm_of_spec fb HF Hq tc a0 Hle Ha0 Had) as (Hbw & _).
+    pose proof (Forall2_length' _ _ _ Ha1) as La. pose proof (Forall2_length' _ _ _ Hb1) as Lb.
+    apply (nth_ext_len _ _ 0%Z); [lia|]. intros pos Hpos.
+    (* a trial whose source index stands at [pos] *)
+    assert (Ht : exists t, t < tc /\ src_pos fb tc (perm_of fb tc a0) t = pos).
+    { unfold src_pos. unfold src_shapes in La. destruct (full fb tc) eqn:Ef.
+      - unfold full in Ef. apply andb_prop in Ef. destruct Ef as [Etc Hu]. apply Nat.eqb_eq in Etc.
+        rewrite (combs_length fb HF Hq) in La.
+        assert (Hbw' : bounded_word (f0_cws fb) (Z.of_nat (p_C (f0_cws fb))) (perm_of fb tc a0)).
+        { rewrite (f0_p_C fb HF), (f0_unw_C fb HF Hu), <- Etc. exact Hbw. }
+        pose proof (bw_full (f0_cws fb) (f0_cws_nonneg fb HF) _ Hbw' pos ltac:(rewrite (f0_cws_length fb HF); lia)) as Hcnt.
+        rewrite (unw_nth (f0_cws fb) pos Hu ltac:(rewrite (f0_cws_length fb HF); lia)) in Hcnt.
+        assert (Hin : In (Z.of_nat pos) (perm_of fb tc a0)) by (apply count_sym_In; lia).
+        apply (In_nth _ _ 0%Z) in Hin. destruct Hin as [t [Ht Et]]. exists t. split; [lia|]. rewrite Et. apply Nat2Z.id.
+      - rewrite map_length in La. exists pos. split; [lia | reflexivity]. }
+    destruct Ht as (t & Ht & Epos).
+    destruct (src_idx_ok fb HF Hq tc a0 a1 t Hle Ha0 Had Ha1 Ht) as (Hp & _ & Hia).
+    destruct (src_idx_ok fb HF Hq tc a0 b1 t Hle Ha0 Had Hb1 Ht) as (_ & _ & Hib).
+    cbv zeta in Hp, Hia, Hib. rewrite Epos in Hia, Hib.
+    set (perm := perm_of fb tc a0) in *. set (V := f0_valid fb (nth (Z.to_nat (nth t perm 0%Z)) (f0_instances fb) [])) in *.
+    (* the source combinations of the trial agree *)
+    assert (Hsrc : src_at fb tc perm a1 t = src_at fb tc perm b1 t).
+    { destruct (src_at_keys fb HF Hq tc (a0, a1, a2) t Hle Hok1 Ht) as (la & Ea & Hla).
+      destruct (src_at_keys fb HF Hq tc (a0, b1, b2) t Hle Hok2 Ht) as (lb & Eb & Hlb). fold perm in Ea, Eb.
+      rewrite Ea, Eb. f_equal. apply (nth_ext_len _ _ 0); [lia|]. intros j Hj. rewrite Hla in Hj.
+      assert (Hg : nth_error (f0_ubs fb) j = Some (nth j (f0_ubs fb) 0)) by (apply nth_error_nth_ok; exact Hj).
+      assert (Hgn : In (nth j (f0_ubs fb) 0) (fl_act fb)) by (apply (f0_ubs_act fb HF), nth_In; exact Hj).
+      pose proof (Hrows _ Hgn) as Hrow.
+      rewrite (round_row_src fb HF Hq tc (a0, a1, a2) j _ Hle Hok1 Hg) in Hrow.
+      rewrite (round_row_src fb HF Hq tc (a0, b1, b2) j _ Hle Hok2 Hg) in Hrow. cbn [fst snd] in Hrow.
+      pose proof (map_seq_inj _ _ tc Hrow t Ht) as E. inversion E as [E']. unfold src_level in E'. fold perm in E'.
+      rewrite Ea, Eb in E'.
+      rewrite (alookup_combine (f0_ubs fb) la j _ (f0_ubs_nodup fb HF) Hla Hg) in E'.
+      rewrite (alookup_combine (f0_ubs fb) lb j _ (f0_ubs_nodup fb HF) Hlb Hg) in E'.
+      rewrite (nth_error_nth_ok la j 0) in E' by lia. rewrite (nth_error_nth_ok lb j 0) in E' by lia. exact E'. }
+    unfold src_at in Hsrc.
+    assert (Hina : In (src_num fb tc perm a1 t) V) by (unfold src_num; rewrite Epos; apply nth_In; lia).
+    assert (Hinb : In (src_num fb tc perm b1 t) V) by (unfold src_num; rewrite Epos; apply nth_In; lia).
+    pose proof (proj1 (valid_In fb HF Hq _ _) Hina) as [Hlta _]. pose proof (proj1 (valid_In fb HF Hq _ _) Hinb) as [Hltb _].
+    apply (proj1 (NoDup_nth (f0_srcs fb) []) srcs_nodup) in Hsrc; [|exact Hlta | exact Hltb].
+    unfold src_num in Hsrc. rewrite Epos in Hsrc. fold V in Hsrc.
+    apply (proj1 (NoDup_nth V 0) (valid_nodup _)) in Hsrc; lia. }
   (* the independent indices agree *)
   assert (E2 : a2 = b2).
   { pose proof (Forall2_length' _ _ _ Ha2) as Hl1. pose proof (Forall2_length' _ _ _ Hb2) as Hl2.
